@@ -15,6 +15,10 @@ import (
 
 type fsm struct {
 	peer *peer
+	// dir is this FSM's index (out or in) into the peer's per-FSM channels.
+	// It is fixed at construction so the FSM goroutine never has to read
+	// peer.fsms, which only the peer goroutine may touch.
+	dir int
 
 	// the bgp ID received in the latest open message
 	remoteID uint32
@@ -45,9 +49,10 @@ type fsm struct {
 	idleHoldTimer     *time.Timer
 }
 
-func newFSM(peer *peer, conn net.Conn) *fsm {
+func newFSM(peer *peer, conn net.Conn, dir int) *fsm {
 	f := &fsm{
 		peer:    peer,
+		dir:     dir,
 		conn:    conn,
 		closeCh: make(chan struct{}),
 		doneCh:  make(chan struct{}),
